@@ -125,6 +125,12 @@ structure World where
   wakes : Nat := 0                  -- self-wakes in the current POLL
   lastRes : Option (Except Err Unit) := none   -- result of the operation that completed last
   out : List String := []           -- trace, newest first
+  /-- Ghost (not in the code, never printed): the ordinals (1 = first transport handed to
+  `connect`) of the transports on which a future suspended inside one of the three operation-local
+  `write_all`s (CONNECT, QoS 0 PUBLISH, DISCONNECT) was dropped — the only way a packet can be left
+  half-written on a wire that is still in use (connect and QoS 0 publish are not cancel-safe; a
+  cancelled `disconnect` is finding F2b). Set by `cancelFut` only. -/
+  tornNets : List Nat := []
   deriving Inhabited
 
 namespace World
